@@ -292,6 +292,15 @@ pub fn s_rtcp_marshal(run: &mut Run, toks: &[&str]) -> (String, Fails) {
                 Ok(Ok(back)) => {
                     let same_kinds = back.len() == ps.len() && back.iter().zip(&ps).all(|(a, b)| kind(a) == kind(b) && cardinality(a) == cardinality(b));
                     if !same_kinds { if framing_domain { f.push((tag("framing"), format!("sent {} packets, parsed {}: {}", ps.len(), back.len(), show_rtcps(&back)))); } }
+                    else if !all_in && classes.iter().all(|c| matches!(c, None | Some("lost-outside-24bit"))) {
+                        // RFC 3550 §6.4.1: the cumulative loss saturates at the 24-bit signed limits
+                        let sat = |b: &ReportBlock| ReportBlock { packets_lost: b.packets_lost.clamp(-(1 << 23), (1 << 23) - 1), ..b.clone() };
+                        let want: Vec<RtcpPacket> = ps.iter().map(|p| match norm(p) {
+                            RtcpPacket::SenderReport(mut s) => { s.report_blocks = s.report_blocks.iter().map(sat).collect(); RtcpPacket::SenderReport(s) }
+                            RtcpPacket::ReceiverReport(mut s) => { s.report_blocks = s.report_blocks.iter().map(sat).collect(); RtcpPacket::ReceiverReport(s) }
+                            o => o }).collect();
+                        if back != want { f.push(("codec:rr:loss-saturation".into(), show_rtcps(&back))); }
+                    }
                     else if all_in {
                         let want: Vec<RtcpPacket> = ps.iter().map(norm).collect();
                         if back != want {
@@ -507,7 +516,14 @@ pub fn run(args: &Args) {
                 emit(&mut run, format!("rtp_parse {}", hex(&v)), true); run.count("rtp_foreign_padding"); }
         }
     }
-    for b0 in 0..=255u8 { emit(&mut run, format!("rtp_parse {}", hex(&[b0])), false); }
+    for b0 in 0..=255u8 { emit(&mut run, format!("rtp_parse {}", hex(&[b0])), false); emit(&mut run, format!("rtcp_parse {}", hex(&[b0])), false); }
+    emit(&mut run, "rtp_parse -".into(), false); emit(&mut run, "rtcp_parse -".into(), false);
+    if args.tier_thorough {
+        // every byte string of length 2, and every 4-byte RTCP header with an empty body
+        for a in 0..=255u8 { for b in 0..=255u8 { emit(&mut run, format!("rtp_parse {}", hex(&[a, b])), false); emit(&mut run, format!("rtcp_parse {}", hex(&[a, b])), false); } }
+        for a in 0..=255u8 { for b in 0..=255u8 { emit(&mut run, format!("rtcp_parse {}", hex(&[a, b, 0, 0])), true); } }
+        run.count_n("exhaustive_len2_and_empty_rtcp_headers", 3 * 65536);
+    }
     for _ in 0..300 * scale { let n = rng.range(12, 40) as usize; let mut v = rng.bytes(n); v[0] = 0x80 | (v[0] & 0x3F);
         emit(&mut run, format!("rtp_parse {}", hex(&v)), true); run.count("rtp_random_v2"); }
     // bytes serialised by the reference implementation (one-/two-byte extensions, padding)
@@ -591,7 +607,7 @@ pub fn run(args: &Args) {
         emit(&mut run, format!("rtcp_parse {}", hex(&v)), true); run.count("rtcp_twcc_padded_wire");
     }
     // boundary NACK sets: every subset of a window straddling 65535 → 0
-    let w: u32 = if args.tier_thorough { 16 } else { 11 };
+    let w: u32 = if args.tier_thorough { 20 } else { 11 };
     for mask in 1u32..(1 << w) {
         let lost: Vec<String> = (0..w).filter(|k| mask >> k & 1 == 1).map(|k| (65_530u16.wrapping_add((k * 3 % w) as u16 + (k / 4) as u16 * 5)).to_string()).collect();
         emit(&mut run, format!("rtcp_marshal NACK,1,2,{}", lost.join(";")), true);
